@@ -54,6 +54,7 @@ _KNOWN_KEYS = set()
 
 
 _RUNS_SINCE_COLLECT = 0
+_LAST_COLLECT = 0.0
 
 
 def _fresh():
@@ -65,12 +66,15 @@ def _fresh():
     from .world import install, reset_coba_globals
     install()
     reset_coba_globals()
-    global _RUNS_SINCE_COLLECT
+    global _RUNS_SINCE_COLLECT, _LAST_COLLECT
     gc.disable()
     _RUNS_SINCE_COLLECT += 1
-    if _RUNS_SINCE_COLLECT >= 64:       # (between runs, now and then: bounds memory; never while a run executes)
+    # between runs, now and then: bounds memory; never while a run executes.  Every 64 runs for the checks whose runs take milliseconds, and
+    # at least every 10 s of work for those whose runs take seconds to minutes (C02: a worker left ~270 MB of cyclic garbage per minute)
+    if _RUNS_SINCE_COLLECT >= 64 or time.monotonic() - _LAST_COLLECT > 10:
         _RUNS_SINCE_COLLECT = 0
         gc.collect()
+        _LAST_COLLECT = time.monotonic()
 
 
 def _worker_init(factory_mod, factory_name):
@@ -340,13 +344,16 @@ def main(factory_mod, factory_name, argv=None):
     with ProcessPoolExecutor(max_workers=jobs, mp_context=ctx, initializer=_worker_init,
                              initargs=(factory_mod, factory_name)) as ex:
         pending = set()
+        fut_runs = {}
         nxt = 0
 
         def submit_more():
             nonlocal nxt, submitted
             while len(pending) < jobs * 2 and nxt < n_runs and budget.left() > 0:
                 c = min(chunk, n_runs - nxt)
-                pending.add(ex.submit(_run_chunk, (seed, nxt, c, a.tier, twice, bool(a.dump_digests))))
+                fut = ex.submit(_run_chunk, (seed, nxt, c, a.tier, twice, bool(a.dump_digests)))
+                fut_runs[fut] = (nxt, c)
+                pending.add(fut)
                 nxt += c
                 submitted += c
         submit_more()
@@ -400,7 +407,16 @@ def main(factory_mod, factory_name, argv=None):
                         pending.discard(f)
                 nxt = n_runs
             submit_more()
+            if budget.left() <= 0:
+                # the budget is used up: what is still queued behind the running chunks is withdrawn (it would only start now), so that the
+                # grace period has to cover the chunks that are actually running
+                for f in list(pending):
+                    if f.cancel():
+                        pending.discard(f)
+                        submitted -= fut_runs[f][1]
         if timed_out:
+            print("HARNESS-ERROR detail: chunks still running (first run index, runs): "
+                  f"{sorted(fut_runs[f] for f in pending if not f.done())[:40]}", flush=True)
             # leaving the with-block would wait for the stuck worker: report and leave right here (never exit 0)
             print(f"HARNESS-ERROR property={chk.prop}: worker pool did not finish within the hard deadline "
                   f"({budget.seconds}+{tier_cfg.get('grace_s', 120)} s); runs submitted {submitted}, finished {agg['n']}", flush=True)
